@@ -27,6 +27,7 @@ import hashlib
 import itertools
 import os
 import shutil
+import signal
 import tempfile
 
 from mc import env  # noqa: F401  (binds desper to $VERIF_REPO; keep first)
@@ -368,13 +369,13 @@ class _Listing:
     """What os.scandir returns: iterable context manager of DirEntry."""
 
     def __init__(self, entries):
-        self._entries = entries
+        self._it = iter(entries)
 
     def __iter__(self):
-        return iter(self._entries)
+        return self
 
-    def __next__(self):             # pragma: no cover - not used by glob
-        raise StopIteration
+    def __next__(self):
+        return next(self._it)
 
     def __enter__(self):
         return self
@@ -1031,28 +1032,50 @@ REQUIRED = dict(nested_conflict_layered=1, replace_without_nest=1,
                 rule_missing=1, nested_rule_dir=1, extra_arguments=1,
                 listing_permuted=1, outside_rule_dir_ignored=1,
                 same_key_winner_free=1, option_per_call_overrides_ctor=1,
-                nothing_accepted=1, backlinks_verified=1)
+                nothing_accepted=1, implicit_submap=1, backlinks_verified=1)
 # shortcuts that can only be counted on cases that pass; when the clause
 # itself is violated on every such case the violation is the evidence
 REQUIRED_UNLESS_VIOLATED = dict(
     rule_path_is_file='not_a_directory_valueerror',
-    implicit_submap='backlinks',
     implicit_submap_backlinked='backlinks')
+
+
+class _Scratch:
+    """Creates the private directory and removes it whatever happens
+    (SIGTERM from ``timeout`` included: it is turned into SystemExit so that
+    the ``finally`` clauses run; forked workers inherit that and clean their
+    current case the same way)."""
+
+    def __enter__(self):
+        self._old = None
+        try:
+            self._old = signal.signal(signal.SIGTERM, self._term)
+        except ValueError:          # not in the main thread
+            pass
+        _make_base()
+        return self
+
+    @staticmethod
+    def _term(signum, frame):
+        raise SystemExit(128 + signum)
+
+    def __exit__(self, *exc):
+        _drop_base()
+        if self._old is not None:
+            signal.signal(signal.SIGTERM, self._old)
+        return False
 
 
 def run(tier, rep):
     rep.rule = RULE
     rep.assumptions += ASSUMPTIONS
-    _make_base()
-    try:
+    with _Scratch():
         calibrate()
         for part, spec in parts(tier).items():
             cases = cases_for(spec)
             kernel.enumerate_cases(RUNNERS[spec[0]], cases, rep, part,
                                    params=part_params(spec), chunk=500)
             del cases
-    finally:
-        _drop_base()
     clauses = {rec['clause'] for rec in rep.violations.values()}
     rep.require_hits(**REQUIRED)
     for name, clause in REQUIRED_UNLESS_VIOLATED.items():
@@ -1072,13 +1095,10 @@ def replay(rec):
     spec = parts('thorough').get(part) or parts('quick').get(part)
     if spec is None:
         raise SystemExit(f'unknown part {part}')
-    _make_base()
-    try:
+    with _Scratch():
         calibrate()
         try:
             RUNNERS[spec[0]](_norm_case(rec['case']))
         except Violation as v:
             return v
         return None
-    finally:
-        _drop_base()
